@@ -186,7 +186,7 @@ def getter_probes(rng, model, prof):
                         keys_form=rng.choice(["list", "list", "tuple", "gen"])))
         if via == "h" or m is None:
             ops.append(dict({k: v for k, v in base.items()}, op="len"))
-            ops.append(dict(base, op="iter"))
+            ops.append(dict(base, op="iter", iter_form=rng.choice([None, None, "abandoned-first"])))
             ops.append(dict(base, op="all", sorted=rng.random() < 0.5))
     ops.append({"op": "get_measurements"})
     return ops
